@@ -31,7 +31,8 @@ Record lev := mkLev {
   ldN : nat;           (* dNl[level]     : paths still to do                            *)
   lcnt : nat;          (* ghost: number of paths the level's coupling process has simulated *)
   lcost : Q;           (* sum_cost[level]                                               *)
-  lrows : list row     (* mc_statistics[level]._payoff_statistics.stats[:, 0, :]        *)
+  lrows : list row;    (* mc_statistics[level]._payoff_statistics.stats[:, 0, :]        *)
+  lpasses : list (Q * nat)   (* ghost: (one_simulation_cost, dNl) of every pass of the level, in order *)
 }.
 
 Inductive outcome (S : Type) :=
@@ -67,7 +68,8 @@ Section Engine.
   Definition run_level (level : nat) (v : lev) : lev :=
     mkLev (lN v + ldN v) (ldN v) (lcnt v + ldN v)
           (lcost v + cost level (lcnt v + ldN v) * qnat (ldN v))
-          (draw level (lN v) (lcnt v) (ldN v) (lrows v)).
+          (draw level (lN v) (lcnt v) (ldN v) (lrows v))
+          (lpasses v ++ [(cost level (lcnt v + ldN v), ldN v)]).
   Fixpoint run_levels (level : nat) (vs : list lev) : list lev :=
     match vs with
     | [] => []
@@ -78,7 +80,7 @@ Section Engine.
   Fixpoint set_dN (Ns : list Z) (level : nat) (vs : list lev) : list lev :=
     match vs with
     | [] => []
-    | v :: r => mkLev (lN v) (Z.to_nat (nth level Ns 0%Z - Z.of_nat (lN v))) (lcnt v) (lcost v) (lrows v)
+    | v :: r => mkLev (lN v) (Z.to_nat (nth level Ns 0%Z - Z.of_nat (lN v))) (lcnt v) (lcost v) (lrows v) (lpasses v)
                 :: set_dN Ns (S level) r
     end.
 
@@ -88,10 +90,10 @@ Section Engine.
 
   (* self.statistics.extend(Nl + dNl): new levels start with 0 rows (create_statistic()), zero padding *)
   Definition ext_level (v : lev) : lev :=
-    mkLev (lN v) (ldN v) (lcnt v) (lcost v) (extend zero_row (lN v + ldN v) (lrows v)).
+    mkLev (lN v) (ldN v) (lcnt v) (lcost v) (extend zero_row (lN v + ldN v) (lrows v)) (lpasses v).
 
   (* L += 1; Nl = np.append(Nl, phantom); sum_cost = np.append(sum_cost, 0.0); new process, new statistics *)
-  Definition new_level : lev := mkLev phantom O O 0 [].
+  Definition new_level : lev := mkLev phantom O O 0 [] [].
 
   Record state := mkState { levels : list lev; nalloc : nat; nconv : nat }.
 
@@ -114,7 +116,7 @@ Section Engine.
 
   (* create_mlmc_statistics(mc_paths = N0, initial_level = L0): L0+1 levels of N0 np.empty rows;
      Nl = zeros, dNl = N0 * ones, sum_cost = zeros *)
-  Definition init_level (N0 level : nat) : lev := mkLev O N0 O 0 (map (garbage level) (seq 0 N0)).
+  Definition init_level (N0 level : nat) : lev := mkLev O N0 O 0 (map (garbage level) (seq 0 N0)) [].
   Definition init_state (L0 N0 : nat) : state := mkState (map (init_level N0) (seq 0 (S L0))) O O.
 
   Definition price_run (fuel L0 N0 : nat) : outcome state := loop fuel (init_state L0 N0).
@@ -126,7 +128,7 @@ Section Engine.
     if Nat.ltb Lmax L0 then None
     else
       let initial := map (init_level N) (seq 0 (S L0)) in
-      let added := map (fun _ => mkLev O N O 0 []) (seq (S L0) (Lmax - L0)) in
+      let added := map (fun _ => mkLev O N O 0 [] []) (seq (S L0) (Lmax - L0)) in
       Some (run_levels 0 (map ext_level (initial ++ added))).
 End Engine.
 
@@ -196,3 +198,46 @@ Definition corr_results (tol : Q) (vs : list lev) (e : Q * Q * list (list Q)) : 
   Qclose tol (mlmc_price vs) price && Qclose tol (res_cost vs) cst &&
   all2 (fun f ex => Qclose_list tol (map (lev_field f) vs) ex)
        [res_ml; res_vl; res_cl; res_mean_level; res_var_level; res_kurtosis] fields.
+
+(* -------------------------------------------------------------------- several pricings on ONE engine *)
+(* Engine.initialisation keeps a list self.path_managers that compute_level_l indexes by LEVEL.  Every path manager
+   carries the deterministic path frozen when it was created (in pricing e, for level l): tag (e, l).
+   repaired code (fix-mc3 2ee0788): the list restarts with the new level-0 manager at every initialisation
+   (`reset = true`); before the repair it was only ever appended to (`reset = false`).
+   next_level appends the manager of each new level in increasing level order.
+   The value of a simulated path is the scripted sample shifted by the deterministic path of the manager USED. *)
+Definition pm_tag := (nat * nat)%type.
+Definition shift (x o : Q * Q) : Q * Q := (fst x + fst o, snd x + snd o).
+
+Record mpricing := mkMP {
+  mp_raw : nat -> nat -> Q * Q; mp_cost : nat -> nat -> Q; mp_alloc : nat -> list Z; mp_conv : nat -> bool;
+  mp_garbage : nat -> nat -> row; mp_df : Q; mp_notional : Q; mp_level_max : nat; mp_fuel : nat; mp_L0 : nat; mp_N0 : nat }.
+
+Section Reuse.
+  Variable offs : nat -> nat -> Q * Q.      (* deterministic path (fine, coarse) of the manager with tag (e, l) *)
+  Variable reset : bool.
+
+  Definition managers (e : nat) (prev : list pm_tag) (K : nat) : list pm_tag :=
+    (if reset then [] else prev) ++ map (fun l => (e, l)) (seq 0 (S K)).
+  Definition manager_used (pms : list pm_tag) (e l : nat) : pm_tag := nth l pms (e, l).     (* self.path_managers[level] *)
+  Definition mp_sample (pms : list pm_tag) (e : nat) (p : mpricing) (l n : nat) : Q * Q :=
+    let t := manager_used pms e l in shift (mp_raw p l n) (offs (fst t) (snd t)).
+
+  Fixpoint run_seq (e : nat) (prev : list pm_tag) (ps : list mpricing) : list (outcome state) :=
+    match ps with
+    | [] => []
+    | p :: r =>
+        let pms := managers e prev (mp_fuel p + mp_L0 p) in       (* enough entries for every level the run can reach *)
+        let o := price_run (mp_sample pms e p) (mp_cost p) (mp_alloc p) (mp_conv p) (mp_garbage p)
+                           (mp_df p) (mp_notional p) (mp_level_max p) 0 (mp_fuel p) (mp_L0 p) (mp_N0 p) in
+        o :: run_seq (S e) (managers e prev (length (out_levels o) - 1)) r
+    end.
+End Reuse.
+
+(* the offsets the scripted coupling of the harness gives its path managers (mcscript.pm_offset) *)
+Definition pm_offs (e l : nat) : Q * Q :=
+  (inject_Z (Z.of_nat e) * (1 # 2) + inject_Z (Z.of_nat l) * (1 # 16), inject_Z (Z.of_nat e) * (1 # 4) + inject_Z (Z.of_nat l) * (1 # 32)).
+
+Definition tab_pricing (c : list (list (Q * Q)) * list Q * list (list Z) * list bool * (Q * Q) * (nat * nat * nat * nat)) : mpricing :=
+  let '(samples, ctab, atab, vtab, (df, no), (lmax, fuel, l0, n0)) := c in
+  mkMP (tab_sample samples) (tab_cost ctab) (tab_alloc atab) (tab_conv vtab) const_garbage df no lmax fuel l0 n0.
